@@ -103,6 +103,14 @@ class Ctx:
             self._Pall = Program(self.repo, include_all=True)
         return self._Pall
 
+    def pruned(self):
+        """the same context over the model without the statements under
+        added one-armed guards"""
+        c = Ctx(self.tier, self.prop, repo=self.repo)
+        c._P = Program(self.repo, include_all=False, prune_guards=True)
+        c._pruned = True
+        return c
+
     @property
     def effects(self):
         if self._eff is None:
@@ -159,7 +167,53 @@ def _reference_tree(repo):
     return True
 
 
+_PRUNED = {}
+
+
 def run_rule(r, ctx):
+    """run one rule (see _run_rule_forked); when the tree has one-armed
+    guards that the reference tree does not have, run it a second time on
+    the model without the guarded statements: an obligation of the form
+    "X is done" has to hold when the guard is false as well.  Findings that
+    appear only there are reported with that condition."""
+    base = _run_rule_forked(r, ctx)
+    if getattr(ctx, '_pruned', False):
+        return base
+    try:
+        guards = ctx.P.added_guards
+    except AnalysisError:
+        return base
+    if not guards:
+        return base
+    key = (ctx.repo, ctx.prop)
+    if key not in _PRUNED:
+        _PRUNED[key] = ctx.pruned()
+    try:
+        alt = _run_rule_forked(r, _PRUNED[key])
+    except AnalysisError:
+        return base
+    have = {(f.rule, f.function, f.construct) for res in base
+            for f in res.findings}
+    cond = '; '.join(f'{rel}:{ln} `{t[:60]}`' for rel, ln, t in guards[:3])
+    for res in alt:
+        for f in res.findings:
+            k = (f.rule, f.function, f.construct)
+            if k in have:
+                continue
+            have.add(k)
+            f.message += (' [when the statements under the added guard are '
+                          f'not executed: {cond}]')
+            f.path = list(f.path) + ['added guard false: ' + cond]
+            tgt = next((b for b in base if b.rule == f.rule),
+                       base[0] if base else None)
+            if tgt is None:
+                base = [res]
+                break
+            tgt.fail(f)
+    return base
+
+
+def _run_rule_forked(r, ctx):
     """run one rule; when its evaluators meet guards that the reference tree
     does not contain and no hook decides, run it once per combination of
     decisions (rat.Fork) and merge: obligations of the first run, findings of
